@@ -124,6 +124,10 @@ def run(tier):
     for j, (cid, src) in enumerate(fsel):
         fd = faulty[j % len(faulty)]
         fsrcs.append(("f%s" % cid, (fd + src) if (j // len(faulty)) % 2 == 0 else (src + fd), cid))
+        # the condition of every `if` is itself erroneous (an undefined name, operands of different types): the
+        # diagnostics of the jumps in and after its branches must survive
+        if "r == 0" in src:
+            fsrcs.append(("fc%s" % cid, src.replace("r == 0", "nowhere == 0" if j % 2 else "r == true"), cid))
     fimpl = C.run_harness("front", [(a, b) for a, b, _ in fsrcs], ck.work + "/faulty")
     LBL = {"400", "420"}
     fbad = 0
